@@ -36,7 +36,8 @@ PLAN = {
                      S("t-dec-half-nosimdhex", tag="half"), S("t-dec-quarter-nosimdhex", tag="quarter"), S("t-dec-min-simdparse", tag="min-simd")],
     },
     "C06": {
-        "quick": [S("hook-default")],
+        # "the hex form is exactly these bytes with the header nibble-swapped" also in the builds with reduced encode tables
+        "quick": [S("hook-default"), S("m6-static-ssse3", tag="enc-half"), S("m4-embedded-min", tag="enc-min")],
         "thorough": [S("hook-default"), S("m3-none", tag="tables")],
     },
     "C07": {
